@@ -49,6 +49,7 @@ import (
 	"github.com/nuts-foundation/nuts-node/vcr/verifier"
 	"github.com/nuts-foundation/nuts-node/vcr/signature"
 	"github.com/nuts-foundation/nuts-node/vcr/signature/proof"
+	"github.com/nuts-foundation/nuts-node/vdr/didx509"
 	"github.com/nuts-foundation/nuts-node/vdr/resolver"
 	"github.com/sirupsen/logrus"
 	"golang.org/x/crypto/ssh"
@@ -438,6 +439,14 @@ func consumers() []consumer {
 				resolver.DIDKeyResolver{Resolver: e.mem}, token, c.data["clientID"].(string))
 			return err == nil, fmt.Sprint(err)
 		}, keyFor: func(c *caseCtx, f enum.JOSEFacts) crypto.PublicKey { return kidKey(c, f) }})
+	// --- did:x509: the key comes from the x5c header, bound to the identifier by the certificate chain (real didx509.Resolver)
+	for _, kind := range []string{"vc", "vp"} {
+		kind := kind
+		list = append(list, consumer{name: kind + "-jwt-x509", families: enum.AllFamilies, allowed: cat(es, ps, []string{"EdDSA"}),
+			setup:  func(e *env, c *caseCtx) enum.JOSEInput { return x509Setup(e, c, kind) },
+			run:    func(e *env, c *caseCtx, token string) (bool, string) { return runX509(e, kind, token) },
+			keyFor: x509KeyFor})
+	}
 	return list
 }
 
@@ -565,7 +574,7 @@ func TestVerifC17(t *testing.T) {
 
 	e := &env{t: t, loader: jsonld.NewTestJSONLDManager(t)}
 	e.mem = &memResolver{docs: map[string]*did.Document{}, fp: &e.fp}
-	e.ver = newVerifier(t, e.mem, e.loader)
+	e.ver = newVerifier(t, methodRouter{x509: didx509.NewResolver(newPKIValidator(t)), mem: e.mem}, e.loader)
 	e.issuer = mustKey(t, "issuer", enum.FamP256)
 	e.issuer.Kid = "did:web:issuer.example#key-1"
 	e.mem.register(e.issuer.Kid, e.issuer.Public())
@@ -681,6 +690,9 @@ func TestVerifC17(t *testing.T) {
 						r.Violation("C17|key-source|ld-proof|"+cl, fmt.Sprintf("a JSON-LD credential whose proof was made by another resolvable party (%s) under that party's verificationMethod verifies for the claimed issuer", n), replayCase{Consumer: "ld-proof", Family: fam, Variant: "key/verification-method:" + n})
 					}
 				}
+			}
+			if strings.HasSuffix(cons.name, "-x509") {
+				x509Scenario(e, r, c, cons.name, fam, &idx, replay, rc)
 			}
 			// environment-answer dimension (deviation bound 1): every call of an external dependency of the key lookup, in turn,
 			// answers {error, not found, time-out}; a fault may cause refusal, never acceptance under another key
